@@ -213,7 +213,10 @@ int main(void)
                 K(k) K(w) K(t0) K(t1) K(t2) K(t3) K(mode) K(lowq) K(highq) K(maxconn) K(cot) K(ca) K(ioa) K(maxasdu)
                 K(handlers) K(hret) K(burst) K(bsize) K(term) K(reqret) K(raw)
             }
-            if (slave) { /* live changes only affect handler behaviour */ }
+            if (slave) {   /* live re-configuration: the APCI parameters are read by the library at the points it chooses */
+                CS104_APCIParameters ap = CS104_Slave_getConnectionParameters(slave);
+                ap->k = cfg.k; ap->w = cfg.w; ap->t0 = cfg.t0; ap->t1 = cfg.t1; ap->t2 = cfg.t2; ap->t3 = cfg.t3;
+            }
         }
         else if (!strcmp(cmd, "group")) {
             char ips[1024]; sscanf(line, "%*s %1023s", ips);
